@@ -455,6 +455,56 @@ def r4_owner(ctx, F, cg, ext_fn, where):
                         'a local of %s and not a field of the returned %s: the references dangle as soon as the constructor returns' % (
                             cfn.path, g.path, i + 1, ty, prov.show(ref, maxdepth=3)[:80], cfn.name, S.split('::')[-1]))
     ctx.floor('C11-R4', nsrc, 1, 'borrow sources of the lifetime-extended value (%s)' % key.split('::')[-1])
+    # inside the constructor: once the lifetime has been extended the owner is frozen — only the move into the struct literal may touch it
+    # (seed C11-7: `osu_objects.truncate(..)` re-allocating the owner between extend_lifetime and `Ok(Self { .. })`)
+    ext_blocks = [bi for bi, t in cfn.calls() if (t['func'].get('path') or '') == ext_fn.path]
+    lit_sites = [(bi, si, s_) for bi, si, s_ in cfn.assigns() if s_['rv']['k'] == 'agg' and s_['rv'].get('adt') == S]
+    if ext_blocks and lit_sites:
+        lbi, lsi, ls = lit_sites[-1]
+        after = set()
+        for eb in ext_blocks:
+            for sb in cfn.cfg.succ[eb]:
+                after |= set(cfn.cfg.reachable_from(sb))
+        for of in owners:
+            if of not in ls['rv'].get('fields', []):
+                continue
+            op = ls['rv']['ops'][ls['rv']['fields'].index(of)]
+            if op.get('k') not in ('move', 'copy') or 'proj' in op.get('p', {}):
+                continue
+            # the literal's operand is usually a temporary filled by `tmp = move owner`: the chain of plain moves leads to the owner local
+            chain = [op['p']['l']]
+            handover = {(lbi, lsi)}
+            grew = True
+            while grew and len(chain) < 6:
+                grew = False
+                defs = [(bi, si, s_) for bi, si, s_ in cfn.assigns() if s_['p']['l'] == chain[-1] and 'proj' not in s_['p']]
+                if len(defs) == 1 and defs[0][2]['rv']['k'] == 'use' and defs[0][2]['rv']['op'].get('k') == 'move' and 'proj' not in defs[0][2]['rv']['op']['p']:
+                    handover.add((defs[0][0], defs[0][1]))
+                    chain.append(defs[0][2]['rv']['op']['p']['l'])
+                    grew = True
+            Ls = set(chain)
+            touched = []
+            for bi, si, s_ in cfn.assigns():
+                if bi not in after or (bi, si) in handover:
+                    continue
+                rv_ = s_['rv']
+                if rv_['k'] == 'ref' and rv_.get('bk') == 'mut' and rv_['p']['l'] in Ls:
+                    touched.append(('&mut', s_.get('ln')))
+                elif rv_['k'] in ('rawptr', 'addr') and rv_.get('p', {}).get('l') in Ls and rv_.get('bk', rv_.get('mt')) in ('mut',):
+                    touched.append(('&raw mut', s_.get('ln')))
+                elif s_['p']['l'] in Ls:
+                    touched.append(('write', s_.get('ln')))
+                elif rv_['k'] == 'use' and rv_['op'].get('k') == 'move' and rv_['op']['p']['l'] in Ls and 'proj' not in rv_['op']['p']:
+                    touched.append(('move', s_.get('ln')))
+            for bi, t in cfn.calls():
+                if bi in after:
+                    for a_ in t['args']:
+                        if a_.get('k') == 'move' and a_['p']['l'] in Ls and 'proj' not in a_['p']:
+                            touched.append(('moved into %s' % (t['func'].get('name')), t.get('ln')))
+            ctx.require(not touched, 'C11-R4', key + ':frozen-after-extend:' + of, 'in %s the owner `%s` is only moved into the %s literal once extend_lifetime has run' % (
+                cfn.path, of, S.split('::')[-1]), cfn.where(),
+                bad='%s: after extend_lifetime has erased the borrow, the owner `%s` is still touched (%s): a re-allocation or a moved-out element leaves the '
+                    'lifetime-extended references dangling, and the borrow checker can no longer see it' % (cfn.path, of, ', '.join('%s at line %s' % x for x in touched)))
     # post-construction API of S: methods with a self parameter
     api = [f for f in F.fns if f.self_adt == S and f.kind == 'AssocFn' and f.j.get('inputs') and S in f.j['inputs'][0]['s']]
     api_paths = {f.path for f in api}
